@@ -106,7 +106,8 @@ class Gen:
         if not self.chance("p_doc"):
             return "", []
         n = self.rng.randint(1, 3)
-        lines = [" " + self.rng.choice(["alpha", "beta gamma", "delta: 1", "see `x`", "x < y", "tab\there"]) + " %d" % self.rng.randint(0, 99)
+        lines = [("" if self.rng.random() < 0.15 else
+                  " " + self.rng.choice(["alpha", "beta gamma", "delta: 1", "see `x`", "x < y", "tab\there"]) + " %d" % self.rng.randint(0, 99))
                  for _ in range(n)]
         return "".join("%s///%s\n" % (indent, l) for l in lines), lines
 
@@ -424,8 +425,11 @@ class Gen:
             vslots = inherit
         miss_here = None
 
-        def place(fname, ttext, size, align, attrs, vis_, docs, zero_array=False):
+        field_meta = {}
+
+        def place(fname, ttext, size, align, attrs, vis_, docs, zero_array=False, doc_lines=None):
             nonlocal cur, max_align, nregions
+            field_meta[fname] = (vis_ == "pub ", doc_lines or [])
             a = 1 if packed else align
             natural = cur
             off = cur
@@ -473,8 +477,8 @@ class Gen:
 
         for b in bases:
             fname = self.fresh("b")
-            docs, _ = self.doc("    ")
-            place(fname, self.ref_name(mod, b), b.size, b.align, ["base"], self.vis(), docs)
+            docs, dl = self.doc("    ")
+            place(fname, self.ref_name(mod, b), b.size, b.align, ["base"], self.vis(), docs, doc_lines=dl)
             base_fields.append((fname, "::".join(b.path)))
             all_copy &= b.copyable
             all_clone &= b.cloneable
@@ -483,8 +487,8 @@ class Gen:
         for i in range(self.r(self.p["fields"])):
             ttext, size, align, fl = self.field_type(mod)
             fname = self.fresh("f")
-            docs, _ = self.doc("    ")
-            place(fname, ttext, size, align, [], self.vis(), docs, zero_array=fl.get("array", False))
+            docs, dl = self.doc("    ")
+            place(fname, ttext, size, align, [], self.vis(), docs, zero_array=fl.get("array", False), doc_lines=dl)
             all_copy &= fl.get("copyable", False) or fl.get("ptr", False)
             all_clone &= fl.get("cloneable", False) or fl.get("ptr", False)
             all_default &= fl.get("defaultable", False) and not fl.get("ptr", False)
@@ -597,7 +601,7 @@ class Gen:
             slot_descs=[({k: v for k, v in d.items() if k != "text"} if d else None) for d in (vslots or [])],
             declared_vft=declare_vft, copyable=copyable, cloneable=cloneable, defaultable=defaultable,
             singleton=singleton, pub=pub, doc=doc_lines, impls=impl_desc,
-            bases=["::".join(b.path) for b in bases], base_fields=base_fields)
+            bases=["::".join(b.path) for b in bases], base_fields=base_fields, field_meta=field_meta)
         return t
 
     def gen_extern_value(self, mod):
@@ -650,8 +654,10 @@ class Gen:
             if self.chance("p_forward"):
                 rng.shuffle(items)
             head = ""
+            mdoc = []
             if self.chance("p_doc"):
-                head += "//! module %s\n" % "::".join(m)
+                mdoc = [" module %s" % "::".join(m)] + ([""] if rng.random() < 0.2 else [])
+                head += "".join("//!%s\n" % l for l in mdoc)
             uses = self.mod_uses.get(tuple(m), [])
             body = "".join("use %s;\n" % u for u in uses)
             pro = epi = None
@@ -668,6 +674,7 @@ class Gen:
                     backs += 'backend rust prologue "%s";\nbackend cpp prologue "#include <x>";\nbackend rust { epilogue "%s"; }\n' % (pro, epi)
             text = head + body + backs + "\n".join(items) + "\n"
             files["/".join(m) + ".pyxis"] = text
+            self.expect.setdefault("modules", {})["/".join(m)] = dict(doc=mdoc, pro=pro, epi=epi)
         return files, self.expect
 
 
